@@ -1,4 +1,5 @@
 #!/bin/bash
+export VERIF_EVIDENCE_DIR=/verif/.work/evidence-seeds; mkdir -p $VERIF_EVIDENCE_DIR
 # usage: seedrun.sh <seed dir> <property id> [more ids]  -- applies the patch to /repo, runs the checks, undoes it
 d=$1; shift
 cd /repo && git apply "$d/patch.diff" || { echo "patch does not apply"; exit 3; }
